@@ -266,6 +266,15 @@ func cutPartitions(start, end []byte, borders [][]byte, shuffle int64) []storage
 
 // AddNode creates a node over the shared engine.
 func (w *World) AddNode() *Node {
+	n := w.addNodeWithIdentity(fmt.Sprintf("node-%d", len(w.Nodes)))
+	// let the background goroutines reach their first cooperative point; the
+	// retry loop registers at its first tick.
+	w.S.Settle()
+	w.S.Advance(1100 * time.Millisecond)
+	return n
+}
+
+func (w *World) addNodeWithIdentity(identity string) *Node {
 	id := len(w.Nodes)
 	h := w.KV.Handle(id)
 	m := NewRecMetrics(RealMetrics)
@@ -275,7 +284,7 @@ func (w *World) AddNode() *Node {
 	}
 	cfg := backend.Config{
 		Prefix:                  w.Sc.Prefix,
-		Identity:                fmt.Sprintf("node-%d", id),
+		Identity:                identity,
 		SkippedPrefixes:         w.Sc.Skipped,
 		WatchCacheSize:          w.Sc.WatchCache,
 		EnableEtcdCompatibility: w.Sc.EtcdCompat,
@@ -284,10 +293,6 @@ func (w *World) AddNode() *Node {
 	b := backend.NewBackend(kv, cfg, m)
 	n := &Node{ID: id, B: b, H: h, M: m, Cfg: cfg}
 	w.Nodes = append(w.Nodes, n)
-	// let the background goroutines reach their first cooperative point; the
-	// retry loop registers at its first tick.
-	w.S.Settle()
-	w.S.Advance(1100 * time.Millisecond)
 	return n
 }
 
